@@ -68,3 +68,10 @@ package php7
 //@   ensures len(nn) > 0 ==> result == nn[len(nn) - 1]
 //@   modifies nothing
 //@   props C01
+
+// The driver must receive the scanner's tokens as they are: Parser.Lex is pinned to "take the next
+// token from the lexer, remember it as the current token, hand it to the driver" (exact trace). The
+// composition arguments of C02 and C07 (no text is invented, duplicated or reordered) start from the
+// token stream the scanner produced; anything Lex added to, removed from or moved between tokens
+// would break them without touching a grammar action.
+//@ trace helper Lex := [] $0.Lexer.Lex(); store &$0.currentToken := result($0.Lexer.Lex()); store &$1.token := result($0.Lexer.Lex()) => result($0.Lexer.Lex()).ID
